@@ -421,6 +421,51 @@ typedef struct {
 static summary_t g_sum;
 static bool g_quiet = false;  // suppress per-run JSON fields (used by sweeps)
 
+// ---------------------------------------------------------------- exact-size source windows
+//
+// salloc=exact: the io_buffer handed to the decoder is always a fresh
+// allocation holding exactly the unread bytes supplied so far (ri = 0,
+// wi = len, pos = bytes consumed before), as a client that compacts into a
+// right-sized buffer would. The sanitizer's red zone then sits immediately
+// behind the last supplied byte at EVERY split point, not only at the end of
+// the input, so any read past io2 is reported wherever the split falls.
+typedef struct {
+  const uint8_t* in;
+  size_t in_len;
+  size_t revealed;
+  bool exact;
+} srcwin_t;
+
+static void srcwin_init(srcwin_t* w, wuffs_base__io_buffer* src, const uint8_t* in, size_t in_len, size_t first, bool exact) {
+  w->in = in;
+  w->in_len = in_len;
+  w->revealed = first;
+  w->exact = exact;
+  size_t cap = exact ? first : in_len;
+  uint8_t* smem = (uint8_t*)malloc(cap ? cap : 1);
+  memcpy(smem, in, cap);
+  *src = wuffs_base__make_io_buffer(wuffs_base__make_slice_u8(smem, cap), wuffs_base__empty_io_buffer_meta());
+  src->meta.wi = first;
+}
+
+static void srcwin_reveal(srcwin_t* w, wuffs_base__io_buffer* src, size_t n) {
+  if (!w->exact) {
+    src->meta.wi += n;
+    w->revealed += n;
+    return;
+  }
+  size_t consumed = (size_t)src->meta.pos + src->meta.ri;
+  w->revealed += n;
+  size_t len = w->revealed - consumed;
+  uint8_t* smem = (uint8_t*)malloc(len ? len : 1);
+  memcpy(smem, w->in + consumed, len);
+  free(src->data.ptr);
+  src->data = wuffs_base__make_slice_u8(smem, len);
+  src->meta.ri = 0;
+  src->meta.wi = len;
+  src->meta.pos = consumed;
+}
+
 // ---------------------------------------------------------------- decode: io_transformer
 
 typedef struct {
@@ -490,18 +535,17 @@ static void run_iot(obj_t* o, const uint8_t* in, size_t in_len, const kv_t* kv, 
 
   if (!compact_mode) {
     // Window mode: single allocations, never compacted; each call reveals more.
-    uint8_t* smem = (uint8_t*)malloc(in_len ? in_len : 1);
-    memcpy(smem, in, in_len);
     uint8_t* dmem = (uint8_t*)malloc(dtotal ? dtotal : 1);
     fill(dmem, dtotal, dfill);
-    wuffs_base__io_buffer src = wuffs_base__make_io_buffer(wuffs_base__make_slice_u8(smem, in_len),
-                                                            wuffs_base__empty_io_buffer_meta());
+    wuffs_base__io_buffer src;
     wuffs_base__io_buffer dst = wuffs_base__make_io_buffer(wuffs_base__make_slice_u8(dmem, 0),
                                                             wuffs_base__empty_io_buffer_meta());
     // the source buffer's capacity is the whole input from the start (len is
-    // fixed); wi reveals bytes. The destination's len grows.
-    src.meta.wi = plan_next(&sp, in_len);
-    if (src.meta.wi == in_len && close_early) src.meta.closed = true;
+    // fixed); wi reveals bytes (salloc=exact: see srcwin_t). The destination's
+    // len grows.
+    srcwin_t sw;
+    srcwin_init(&sw, &src, in, in_len, (size_t)plan_next(&sp, in_len), !strcmp(kv_get(kv, "salloc", "window"), "exact"));
+    if (sw.revealed == in_len && close_early) src.meta.closed = true;
     dst.data.len = plan_next(&dp, dtotal);
     // canary behind the revealed window
     bool use_canary = dp.n > 0;
@@ -534,9 +578,9 @@ static void run_iot(obj_t* o, const uint8_t* in, size_t in_len, const kv_t* kv, 
         if (src.meta.ri < src.meta.wi && !progressed) {
           // unread bytes remain and nothing moved: acceptable only if more input is coming
         }
-        if (src.meta.wi < in_len) {
-          src.meta.wi += plan_next(&sp, in_len - src.meta.wi);
-          if (src.meta.wi == in_len && close_early) src.meta.closed = true;
+        if (sw.revealed < in_len) {
+          srcwin_reveal(&sw, &src, (size_t)plan_next(&sp, in_len - sw.revealed));
+          if (sw.revealed == in_len && close_early) src.meta.closed = true;
           stall = 0;
         } else if (!src.meta.closed) {
           src.meta.closed = true;
@@ -589,11 +633,11 @@ static void run_iot(obj_t* o, const uint8_t* in, size_t in_len, const kv_t* kv, 
       r->final_status = st.repr;
       break;
     }
-    r->consumed = src.meta.ri;
+    r->consumed = (size_t)src.meta.pos + src.meta.ri;
     r->out_len = dst.meta.wi;
     r->out_hash = fnv1a(FNV_INIT, dmem, dst.meta.wi);
     if (kv_get(kv, "out", NULL)) out_append(dmem, dst.meta.wi);
-    free(smem);
+    free(src.data.ptr);
     free(dmem);
   } else {
     // Compacting mode, as example/zcat: fixed buffers, compact source, drain
@@ -769,6 +813,7 @@ static void run_hasher(obj_t* o, const uint8_t* in, size_t in_len, const kv_t* k
 // whole input is one allocation; wi reveals pieces).
 typedef struct {
   wuffs_base__io_buffer src;
+  srcwin_t sw;
   size_t in_len;
   plan_t sp;
   bool close_early;
@@ -776,22 +821,20 @@ typedef struct {
 } feeder_t;
 
 static void feeder_init(feeder_t* f, const uint8_t* in, size_t in_len, const kv_t* kv) {
-  uint8_t* smem = (uint8_t*)malloc(in_len ? in_len : 1);
-  memcpy(smem, in, in_len);
-  f->src = wuffs_base__make_io_buffer(wuffs_base__make_slice_u8(smem, in_len), wuffs_base__empty_io_buffer_meta());
   f->in_len = in_len;
   parse_plan(kv_get(kv, "splits", NULL), &f->sp);
   f->close_early = !strcmp(kv_get(kv, "close", "early"), "early");
   f->short_reads = 0;
-  f->src.meta.wi = plan_next(&f->sp, in_len);
-  if (f->src.meta.wi == in_len && f->close_early) f->src.meta.closed = true;
+  srcwin_init(&f->sw, &f->src, in, in_len, (size_t)plan_next(&f->sp, in_len), !strcmp(kv_get(kv, "salloc", "window"), "exact"));
+  if (f->sw.revealed == in_len && f->close_early) f->src.meta.closed = true;
 }
+static size_t feeder_consumed(const feeder_t* f) { return (size_t)f->src.meta.pos + f->src.meta.ri; }
 // returns false if nothing more can be supplied (closed and complete)
 static bool feeder_more(feeder_t* f) {
   f->short_reads++;
-  if (f->src.meta.wi < f->in_len) {
-    f->src.meta.wi += plan_next(&f->sp, f->in_len - f->src.meta.wi);
-    if (f->src.meta.wi == f->in_len && f->close_early) f->src.meta.closed = true;
+  if (f->sw.revealed < f->in_len) {
+    srcwin_reveal(&f->sw, &f->src, (size_t)plan_next(&f->sp, f->in_len - f->sw.revealed));
+    if (f->sw.revealed == f->in_len && f->close_early) f->src.meta.closed = true;
     return true;
   }
   if (!f->src.meta.closed) {
@@ -959,7 +1002,7 @@ static void run_img(obj_t* o, const uint8_t* in, size_t in_len, const kv_t* kv, 
   json_str(out, final);
   fprintf(out, ",\"stage\":\"%s\",\"calls\":%" PRIu64 ",\"short_reads\":%" PRIu64 ",\"consumed\":%zu,\"w\":%u,\"h\":%u,\"nativefmt\":%u,\"frames\":%" PRIu64
                ",\"pix_len\":%zu,\"pix_hash\":\"%016" PRIx64 "\",\"all_hash\":\"%016" PRIx64 "\",\"stalled\":%s,",
-          stage, calls, f.short_reads, f.src.meta.ri, w, h, nativefmt, frames, pixlen, pix_hash, all_hash, stalled ? "true" : "false");
+          stage, calls, f.short_reads, feeder_consumed(&f), w, h, nativefmt, frames, pixlen, pix_hash, all_hash, stalled ? "true" : "false");
   {
     uint64_t ndf = wuffs_base__image_decoder__num_decoded_frames(d);
     uint64_t ndfc = wuffs_base__image_decoder__num_decoded_frame_configs(d);
@@ -967,7 +1010,7 @@ static void run_img(obj_t* o, const uint8_t* in, size_t in_len, const kv_t* kv, 
     fprintf(out, "\"getters\":[%" PRIu64 ",%" PRIu64 ",%u],", ndf, ndfc, loops);
   }
   g_sum.status = final;
-  g_sum.consumed = f.src.meta.ri;
+  g_sum.consumed = feeder_consumed(&f);
   g_sum.out_len = pixlen;
   g_sum.out_hash = all_hash;
   g_sum.g[0] = wuffs_base__image_decoder__num_decoded_frames(d);
@@ -1041,9 +1084,9 @@ static void run_tok(obj_t* o, const uint8_t* in, size_t in_len, const kv_t* kv, 
   fprintf(out, "\"status\":");
   json_str(out, final);
   fprintf(out, ",\"calls\":%" PRIu64 ",\"short_reads\":%" PRIu64 ",\"short_writes\":%" PRIu64 ",\"consumed\":%zu,\"tokens\":%" PRIu64 ",\"token_len\":%" PRIu64 ",\"stalled\":%s,",
-          calls, f.short_reads, short_writes, f.src.meta.ri, ntok, toklen, stalled ? "true" : "false");
+          calls, f.short_reads, short_writes, feeder_consumed(&f), ntok, toklen, stalled ? "true" : "false");
   g_sum.status = final;
-  g_sum.consumed = f.src.meta.ri;
+  g_sum.consumed = feeder_consumed(&f);
   g_sum.out_len = toklen;
   g_sum.out_hash = 0;
   g_sum.stalled = stalled;
